@@ -202,6 +202,14 @@ def main(argv):
         if mut_broken:
             broken = True
             print("  BROKEN: a seeded self-test mutant was not detected")
+        eq_rows, eq_broken = mutants.run_equivalents(pid)
+        for m in eq_rows:
+            print("EQUIVALENT %s %s" % (m["patch"], "silent" if m["silent"] else "FALSE-ALARM %s" % (m.get("false_alarms") or m.get("error") or "analysis broken")))
+        if eq_broken:
+            broken = True
+            print("  BROKEN: the check raises an alarm on a behaviour-preserving rewrite (selftest/equivalents)")
+        if eq_rows:
+            mut_rows = list(mut_rows) + [dict(m, kind="equivalent") for m in eq_rows]
     wall = time.time() - t0
     replay_path = None
     if new_findings:
